@@ -288,7 +288,7 @@ class RefSim:
         fn = self.pars[name].get("fn") or ""
         r = ":" in fn
         if not r and fn and not fn.startswith(("SRC_POP_", "TGT_POP_")):
-            r = any(self._depends_on_flow(n) for n in expr.names(fn) if n in self.pars)
+            r = any(self._depends_on_flow(n) for n in expr.names(fn) if n in self.pars and n != name)
         if not r and fn.startswith(("SRC_POP_", "TGT_POP_")):
             args = [a.strip() for a in fn.split("(")[1].rstrip(")").split(",")]
             r = any(self._depends_on_flow(a) for a in args if a in self.pars)
